@@ -725,6 +725,39 @@ class Renderer(object):  # pylint: disable=too-many-instance-attributes
         self.g(code + words, precheck=True)
 
 
+_WORD = re.compile(r"^([A-Z])(-?)(\d+)(?:\.(\d+))?$")
+
+
+def respell(cmd, style):
+    """The same motion command with its numbers in another legal spelling: 'compact' drops the leading zero and writes
+    integers with a trailing point (X.5, Y-.25, Z5.), 'plus' gives non-negative values an explicit sign."""
+    parts = cmd.split(" ")
+    if style == "plain" or parts[0] not in ("G0", "G1", "G2", "G3", "G92"):
+        return cmd
+    out = [parts[0]]
+    for w in parts[1:]:
+        m = _WORD.match(w)
+        if not m:
+            out.append(w)
+            continue
+        letter, sign, ip, fp = m.groups()
+        if style == "compact":
+            if fp is None:
+                t = ip + "."
+            elif ip == "0":
+                t = "." + fp
+            else:
+                t = ip + "." + fp
+            out.append(letter + sign + t)
+        else:
+            out.append(letter + (sign or "+") + ip + ("." + fp if fp is not None else ""))
+    return " ".join(out)
+
+
+def respell_prog(prog, style):
+    return [["g", respell(it[1], style)] if it[0] == "g" else it for it in prog]
+
+
 @st.composite
 def cases(draw, p):
     """A concrete case {"config","regions","prog"} plus "meta" (generator bookkeeping)."""
@@ -748,6 +781,7 @@ def cases(draw, p):
     for o in abstract:
         rnd.op(o)
     via = draw(st.sampled_from(["direct", "direct", "plugin"])) if p.get("via_plugin", True) else "direct"
-    return {"config": cfg, "regions": regions, "prog": rnd.prog, "via": via,
+    spell = draw(st.sampled_from(["plain"] * 5 + ["compact", "plus"])) if p.get("spell", True) else "plain"
+    return {"config": cfg, "regions": regions, "prog": respell_prog(rnd.prog, spell), "via": via,
             "meta": {"rewrites": rnd.rewrites, "fw": fw, "delta": delta, "exact": exact,
                      "excluded_known": rnd.excluded_known}}
